@@ -1,6 +1,7 @@
 pub mod c01;
 pub mod c18;
 pub mod c19;
+pub mod numeric;
 pub mod pool_hist;
 pub mod poolprops;
 
@@ -8,8 +9,29 @@ use crate::framework::*;
 use serde_json::Value;
 
 pub fn run(prop: &str, tier: Tier, seed: u64) -> Option<PropReport> {
+    let mut rep = run_inner(prop, tier, seed)?;
+    // replay tier: committed regression cases (witnesses of fixed and open findings, boundaries)
+    for path in corpus_files(prop) {
+        let text = std::fs::read_to_string(&path).unwrap_or_default();
+        let v: Value = serde_json::from_str(&text).unwrap_or(Value::Null);
+        let engine = v["engine"].as_str().unwrap_or("").to_string();
+        match replay_engine(&engine, &v["case"]) {
+            Some(Ok(Ok(()))) => rep.corpus_ok += 1,
+            Some(Ok(Err(m))) => rep.corpus_failures.push((path.display().to_string(), m)),
+            Some(Err(e)) => rep.corpus_failures.push((path.display().to_string(), format!("[harness] {e}"))),
+            None => rep.corpus_failures.push((path.display().to_string(), format!("[harness] unknown engine {engine}"))),
+        }
+    }
+    Some(rep)
+}
+
+fn run_inner(prop: &str, tier: Tier, seed: u64) -> Option<PropReport> {
     Some(match prop {
         "C01" => c01::check(tier, seed),
+        "C02" => poolprops::check_c02(tier, seed),
+        "C03" => poolprops::check_c03(tier, seed),
+        "C04" => poolprops::check_c04(tier, seed),
+        "C12" => poolprops::check_c12(tier, seed),
         "C18" => c18::check(tier, seed),
         "C19" => c19::check(tier, seed),
         "SURVEY19" => c19::check_survey(tier, seed),
@@ -32,6 +54,10 @@ fn replay_engine(engine: &str, case: &Value) -> Option<Result<Result<(), String>
         "pool-history-immutability" => replay_case(&poolprops::c16_hist(), case),
         "pool-history-rejections" => replay_case(&poolprops::c20_hist(), case),
         "pool-history-all" => replay_case(&poolprops::all_hist(), case),
+        "cp-swap-numeric" => replay_case(&numeric::CpSwap, case),
+        "cp-reverse-quote" => replay_case(&numeric::CpReverse, case),
+        "ss-swap-value-numeric" => replay_case(&numeric::SsSwapValue, case),
+        "ss-mint-numeric" => replay_case(&numeric::SsMint, case),
         _ => return None,
     })
 }
